@@ -32,6 +32,12 @@ pub fn last_panic() -> String {
 
 /// child side: one JSON object per text
 pub fn child_observe(input: &[u8]) -> String {
+    child_observe_with(input, &|t: &str| parseobs::format(t))
+}
+
+/// the same with the formatter given: FormatOptions::format on the bytes in memory (above), or
+/// `okane format FILE` on a real file (c05long)
+pub fn child_observe_with(input: &[u8], format: &dyn Fn(&str) -> Result<String, String>) -> String {
     let text = match std::str::from_utf8(input) {
         Ok(t) => t,
         Err(_) => return json!({"harness_error": "input is not UTF-8"}).to_string(),
@@ -50,7 +56,7 @@ pub fn child_observe(input: &[u8]) -> String {
     });
     if o.err.is_none() {
         // format, re-parse, format again
-        let f = std::panic::catch_unwind(|| parseobs::format(text));
+        let f = std::panic::catch_unwind(std::panic::AssertUnwindSafe(|| format(text)));
         match f {
             Err(_) => {
                 v["fmt"] = json!({"panic": last_panic()});
@@ -60,7 +66,7 @@ pub fn child_observe(input: &[u8]) -> String {
             }
             Ok(Ok(f1)) => {
                 let o1 = std::panic::catch_unwind(|| parseobs::observe_parse(&f1));
-                let f2 = std::panic::catch_unwind(|| parseobs::format(&f1));
+                let f2 = std::panic::catch_unwind(std::panic::AssertUnwindSafe(|| format(&f1)));
                 match (o1, f2) {
                     (Ok(o1), Ok(f2)) => {
                         v["fmt"] = json!({
@@ -80,11 +86,11 @@ pub fn child_observe(input: &[u8]) -> String {
     v.to_string()
 }
 
-struct Item {
-    text: String,
-    doc: bool,
-    stream: &'static str,
-    tags: Vec<&'static str>,
+pub(crate) struct Item {
+    pub(crate) text: String,
+    pub(crate) doc: bool,
+    pub(crate) stream: &'static str,
+    pub(crate) tags: Vec<&'static str>,
 }
 
 fn fmt_term(v: &Value) -> String {
@@ -114,7 +120,7 @@ pub fn header(classify: &str) -> String {
     )
 }
 
-fn emit(sh: &mut Shards, st: &mut Stats, it: &Item, co: &ChildObs) {
+pub(crate) fn emit(sh: &mut Shards, st: &mut Stats, it: &Item, co: &ChildObs) {
     let (obs, fmt, js, accepted, nontrivial) = match co {
         ChildObs::Timeout => ("OTimeout".to_string(), "FNone".to_string(), json!("timeout"), false, false),
         ChildObs::Abort(s) => (format!("(OAbort {})", s.unsigned_abs()), "FNone".to_string(), json!({ "abort": s }), false, false),
@@ -166,7 +172,7 @@ fn emit(sh: &mut Shards, st: &mut Stats, it: &Item, co: &ChildObs) {
         st.sample(rep.clone(), 5);
     }
     let term = format!(
-        "{{| c_text := {}; c_doc := {}; c_obs := {}; c_fmt := {} |}}",
+        "(Short {{| c_text := {}; c_doc := {}; c_obs := {}; c_fmt := {} |}})",
         parseobs::text(&it.text),
         if it.doc { "true" } else { "false" },
         obs,
@@ -279,6 +285,9 @@ fn replay_items(o: &Opts) -> Option<Vec<Item>> {
     let text = std::fs::read_to_string(p).ok()?;
     let v: Value = serde_json::from_str(&text).ok()?;
     let t = v.get("text").and_then(|x| x.as_str())?;
+    if v.get("stream").and_then(|x| x.as_str()) == Some("long-file") {
+        return Some(vec![]);
+    }
     let d = v.get("in_doc_grammar").and_then(|x| x.as_bool()).unwrap_or(false);
     Some(vec![Item { text: t.to_string(), doc: d, stream: "replay", tags: vec![] }])
 }
@@ -286,8 +295,9 @@ fn replay_items(o: &Opts) -> Option<Vec<Item>> {
 pub fn run(o: &Opts) {
     let mut st = Stats::new();
     let mut sh = Shards::new(&o.out, o.shards, &header("Classify_C05"));
-    st.rule = "a case is one ledger text: grammar-directed texts over doc/syntax.md (flagged in_doc_grammar), one-character mutations and truncations of them, random strings over the ledger alphabet, the .ledger files shipped with the repository, and the corpus; observed: parse_ledger entry list with spans or the error position, format output, its re-parse, format of the format; non-trivial = parses and contains at least one transaction or declaration; distinct by text".to_string();
-    st.assumptions.push("texts are valid UTF-8 of at most a few kB; literals stay within 28 digits".to_string());
+    st.rule = "a case is one ledger text: grammar-directed texts over doc/syntax.md (flagged in_doc_grammar), one-character mutations and truncations of them, random strings over the ledger alphabet, the .ledger files shipped with the repository, and the corpus; observed: parse_ledger entry list with spans or the error position, format output, its re-parse, format of the format; plus the stream long-file: texts of 4-205 KiB (generated entries with multi-byte accounts, payees, commodities, codes, comments, metadata, directive arguments; raw and already formatted) padded so that a 2-, 3- or 4-byte character of a chosen field lies across or beside a multiple of 4096 (4096 ... 196608), formatted by `okane format FILE` on a real file, by `okane format` on that output again, and by FormatOptions::format through readers returning at most 1, 2, 3, 7, 4095, 4096, 4097, 8191, 8192, 8193, 65536 or a changing number of bytes per read; all outputs compared in Coq byte for byte with the printing of parse_ledger(text) computed on the string in memory, the command's second output with its first, an already formatted text with the command's output; those of at most 11 KB also as ordinary cases (whole model leg) whose format observations come from the command on a file; non-trivial = parses and contains at least one transaction or declaration; distinct by text".to_string();
+    st.assumptions.push("texts are valid UTF-8; those of the model leg are at most 11 kB (the parser model is quadratic in the length under vm_compute: 3 s at 10 kB, 47 s at 40 kB), longer ones (to 205 KiB) are compared with the in-memory printing of the implementation's own parse, and the comparison of their entries before and after formatting is made by the harness on canonical entry terms (flag l_meaning); literals stay within 28 digits".to_string());
+    let replaying = replay_items(o).is_some();
     let mut items = match replay_items(o) {
         Some(i) => i,
         None => {
@@ -327,5 +337,8 @@ pub fn run(o: &Opts) {
             emit(&mut sh, &mut st, it, co);
         }
     }
+    // files of 4-200 KiB through `okane format FILE` and through short reads
+    let long = if replaying { crate::c05long::replay_items(o) } else { crate::c05long::items(o.seed, o.thorough) };
+    crate::c05long::run(&long, &mut sh, &mut st);
     sh.finish(&st);
 }
